@@ -152,7 +152,8 @@ func checkUsingKeysRule(c *fw.Ctx) {
 	if fn == nil {
 		return
 	}
-	keyLit := lit{[]string{"param:keys[", "]#1"}, true}
+	// (the map may be the parameter itself or, inside a function literal, the captured parameter)
+	keyLit := lit{[]string{"keys[", "]#1"}, true}
 	validLit := lit{[]string{"(gmsl.PublicKeyLookupResult).WasValidAt("}, true}
 	verifyLit := lit{[]string{"(gmsl.VerifyJSON(", " == nil)"}, true}
 	n := 0
@@ -469,18 +470,27 @@ func checkVerifyJSONsFlow(c *fw.Ctx) {
 		c.Check(reaches(fetcherFetch[0], last), rule, "results are decided from the merged keys after fetching", c.P.Pos(fn.Pos()), "", fmt.Sprintf("none of the %d checkUsingKeys sites follows the fetcher loop: keys obtained from fetchers never reach a verdict", len(cu)))
 	}
 	// one result per request, returned as such
-	okLen := false
-	for _, b := range fn.Blocks {
-		for _, ins := range b.Instrs {
-			if ms, ok := ins.(*ssa.MakeSlice); ok && strings.Contains(ms.Type().String(), "VerifyJSONResult") && fw.Sig(ms.Len) == "builtin.len(param:requests)" {
+	okLen, otherLen := false, ""
+	for _, di := range fw.DeepInstrs(fn, nil) {
+		if ms, ok := di.Instr.(*ssa.MakeSlice); ok && strings.Contains(ms.Type().String(), "VerifyJSONResult") {
+			if sl := fw.SigIn(di.Fr, ms.Len); sl == "builtin.len(param:requests)" {
 				okLen = true
+			} else {
+				otherLen = sl
 			}
 		}
 	}
-	c.Check(okLen, rule, "one result per request", c.P.Pos(fn.Pos()), "", "results is not make([]VerifyJSONResult, len(requests))")
+	switch {
+	case okLen:
+		c.Ok(rule, "one result per request", c.P.Pos(fn.Pos()), "")
+	case otherLen != "" && !strings.Contains(otherLen, "requests") && !strings.Contains(otherLen, "param:") && !strings.Contains(otherLen, "free:"):
+		c.Fail(rule, "one result per request", c.P.Pos(fn.Pos()), "results is make([]VerifyJSONResult, "+otherLen+"), not one per request")
+	default:
+		c.Undecided(rule, "one result per request", "no make([]VerifyJSONResult, len(requests)) was recognised in VerifyJSONs and its helpers")
+	}
 	// every request starts failed: VerifyJSONs itself (outside checkUsingKeys) stores no error that can be nil
 	nonNil := 0
-	stopCheck := func(f *ssa.Function) bool { return fw.FuncName(f) == "(*gmsl.KeyRing).checkUsingKeys" }
+	stopCheck := func(f *ssa.Function) bool { return strings.HasSuffix(fw.FuncName(f), ").checkUsingKeys") }
 	for _, di := range fw.DeepInstrs(fn, stopCheck) {
 		st, isSt := di.Instr.(*ssa.Store)
 		if !isSt {
@@ -497,7 +507,21 @@ func checkVerifyJSONsFlow(c *fw.Ctx) {
 		nonNil++
 		bad := ""
 		for _, a := range nilAlternatives(c, st.Val, di.Fr, st.Block(), fw.DNF{fw.Term{}}, 0) {
-			switch a.kind {
+			kind := a.kind
+			if kind == "nil" && len(a.cond) > 0 {
+				// nil stored behind VerifyJSON == nil: an accept site (in a routine rule 1 is not
+				// anchored on), not a result marked successful although no key was tried
+				all := true
+				for _, term := range a.cond {
+					if !termHas(term, lit{[]string{"(gmsl.VerifyJSON(", " == nil)"}, true}) {
+						all = false
+					}
+				}
+				if all {
+					kind = "verify"
+				}
+			}
+			switch kind {
 			case "nil":
 				bad = a.desc + " at " + a.pos
 			case "verify":
